@@ -160,6 +160,14 @@ def do_replay(prop: str, path: str) -> int:
                 print("   model:", model[i + 1][0])
         print("final state (impl):", impl[-1]["state"])
         return 0
+    if "sessions" in case:
+        # gateway sessions on one persistence file (C05): re-executed on the implementation
+        from .props import versessions
+        for k in ("run", "step", "reported_by_gateway", "protocol_version", "active", "want_active"):
+            if k in case:
+                print(f"{k}: {case[k]!r}")
+        versessions.replay(case)
+        return 0
     print(json.dumps(case, indent=1, default=str)[:4000])
     print("(this engine's cases are replayed by re-running the check: the corpus and the seed reproduce them)")
     return 0
